@@ -93,3 +93,26 @@ def _(cls: OneOf(ImageArrayEntry, ImageArrayEntryV2), image_type: Range(0, 15), 
     returns(image_type + core_id * 16 + hash_type.tag * 256 + (1 if is_encrypted else 0) * 2 ** cls.FLAGS_IS_ENCRYPTED_OFFSET
             + boot_flags * 2 ** cls.FLAGS_BOOT_FLAGS_OFFSET, label="type-core-hash-encrypted-bootflags-in-their-fields")
     pure()
+
+
+# ---- SRK record: the two 16-bit parameter lengths at offset 8 (first = RSA modulus / ECC X, second = RSA exponent / ECC Y) -----------------
+from spsdk.image.ahab.ahab_srk import SRKRecordBase  # noqa: E402
+
+# from the container format: key-size code -> (length of the first crypto parameter, length of the second), the parameters themselves follow
+# the record header in this order (modulus || exponent, X || Y, raw key)
+_SRK_PARAM_LEN = {0x1: (32, 32), 0x2: (48, 48), 0x3: (66, 66), 0x5: (2048 // 8, 4), 0x6: (3072 // 8, 4), 0x7: (4096 // 8, 4), 0x8: (32, 32),
+                  0x9: (1952, 0), 0xA: (2592, 0)}
+
+
+@contract("spsdk.image.ahab.ahab_srk:SRKRecordBase.parameter_lengths")
+def _(self: Obj(SRKRecordBase, key_size=OneOf(*sorted(_SRK_PARAM_LEN)))) -> bytes:
+    returns(_SRK_PARAM_LEN[self.key_size][0].to_bytes(2, "little") + _SRK_PARAM_LEN[self.key_size][1].to_bytes(2, "little"),
+            label="first-parameter-length-then-second-as-two-le16")
+    pure()
+    sample_with(lambda rnd: {"self": (lambda o, k: (setattr(o, "key_size", k), o)[1])(object.__new__(SRKRecordBase), rnd.choice(sorted(_SRK_PARAM_LEN)))})
+
+
+@contract("spsdk.image.ahab.ahab_srk:SRKRecordBase._crypto_params_length")
+def _(cls: Const(SRKRecordBase), parameter_lengths: Bytes(lo=4, hi=8)) -> int:
+    returns(parameter_lengths[0] + 256 * parameter_lengths[1] + parameter_lengths[2] + 256 * parameter_lengths[3], label="sum-of-the-two-le16-lengths")
+    pure()
